@@ -602,8 +602,14 @@ def dec_recs(spr):
 # units
 # ------------------------------------------------------------------------------------------------
 
+def big_budget(ctx):
+    """thorough tier, or quick tier escalated because one of C18's own anchors drifted (C18 uses no
+    generated constant, so drift of SourceConstants.v entries of other properties does not count)"""
+    return ctx.thorough or bool(ctx.drift)
+
+
 def sprs(ctx):
-    return [4, 5, 6, 9] if (ctx.thorough or ctx.escalated()) else [4, 5, 9]
+    return [4, 5, 6, 9] if big_budget(ctx) else [4, 5, 9]
 
 
 def exhaustive_waveform_scenarios(ctx, spr, alphabet, nfrag):
@@ -617,7 +623,7 @@ def exhaustive_waveform_scenarios(ctx, spr, alphabet, nfrag):
 def unit_find_hits(ctx):
     u = Unit(ctx, "find_hits")
     rng = ctx.rng
-    big = ctx.thorough or ctx.escalated()
+    big = big_budget(ctx)
     cfgs = [(("s", 16), ("s", 0)), (("s", 32), ("s", 0)), (("s", 40), ("s", 0)), (("p", [48]), ("s", 0)),
             (("s", 8), ("s", 16)), (("s", 8), ("p", [24])), (("p", [24, 16]), ("p", [0, 32]))]
 
@@ -704,7 +710,7 @@ def unit_record_links(ctx):
 
     # exhaustive: <= 4 records, 2 channels, times on a grid of multiples of spr*dt/2, record_i in {0,1,2}
     spr, dt = 4, 1
-    nmax = 4 if (ctx.thorough or ctx.escalated()) else 3
+    nmax = 4 if big_budget(ctx) else 3
     grid = [2, 4, 6, 8, 10]
     for n in range(1, nmax + 1):
         for times in itertools.combinations_with_replacement(grid, n):
@@ -749,7 +755,7 @@ def unit_record_links_time0(ctx):
 def unit_cut_outside_hits(ctx):
     u = Unit(ctx, "cut_outside_hits")
     rng = ctx.rng
-    big = ctx.thorough or ctx.escalated()
+    big = big_budget(ctx)
 
     def one(recs, spr, hs, le, re, kind, hits_arr=None):
         arr = hits_arr if hits_arr is not None else mk_hits(hs)
@@ -970,13 +976,14 @@ def run(ctx):
     ctx.assumptions.append("floats: generated baselines/thresholds/rms are multiples of 1/16 with small numerators, so "
                            "float32/float64 arithmetic in strax is exact and compared for equality with the dyadic model")
     ctx.assumptions.append("baseline_rms (float sqrt) is an input of the model, never computed by it")
+    import sys
+    import time
     with quiet_stdout():
-        unit_find_hits(ctx)
-        unit_record_links(ctx)
-        unit_record_links_time0(ctx)
-        unit_cut_outside_hits(ctx)
-        unit_helpers(ctx)
-        unit_pipeline(ctx)
+        for unit in (unit_find_hits, unit_record_links, unit_record_links_time0, unit_cut_outside_hits,
+                     unit_helpers, unit_pipeline):
+            t0 = time.time()
+            unit(ctx)
+            sys.stderr.write("C18 %s: %.1fs\n" % (unit.__name__, time.time() - t0))
     if CUT_BASELINE_MODE["mode"] == "py_func":
         ctx.notes.append("strax.cut_baseline cannot be compiled by the installed numba (%s); its correspondence ran "
                          "on the undecorated Python function over a recarray view" % CUT_BASELINE_MODE["error"])
